@@ -1,6 +1,7 @@
 """C05 chunked (restartable) decoding — R05.1 stateless decoders report nothing consumed on WMORE, R05.2 reported
 consumption and saved state move together, R05.3 "0 = want more" maps to WMORE."""
 import collections
+import re
 
 from ..engine import Rule, load_tables
 from ..extract import AnalysisBroken
@@ -621,10 +622,54 @@ def r05_6(prog, tab):
     return r
 
 
+def r05_7(prog, tab=None, rid="R05.7", only=None, floor=12):
+    """A constructed BER decoder keeps a byte budget (`ctx->left`, set from the outer length and decremented with every
+    ADVANCE).  What it hands to a sub-decoder or a header fetcher must stay inside that budget: in a function that
+    decrements `<ctx>->left`, every call argument that mentions the function's own `size` parameter also mentions
+    `<ctx>->left` (the LEFT idiom, min(size, ctx->left)), unless the call is given the context object itself (the tag
+    checker that *establishes* the budget).  A raw `size` lets a member read past the end of its parent: a truncated
+    parent is then answered with WMORE/OK instead of FAIL and `consumed` can run past the PDU."""
+    r = Rule(rid, "in a decoder that keeps a `ctx->left` byte budget, sub-decoders and fetchers are given min(size, ctx->left), never the raw buffer size", floor=floor)
+    for f in sorted(prog.funcs.values(), key=lambda f: f.key):
+        holder = None
+        for b, i, e in f.events("assign"):
+            lt = strip_casts(e.get("lhs_tree"))
+            if isinstance(lt, list) and lt and lt[0] == "member" and lt[2] == "left" and lt[3] and e.get("op") == "-=" and is_var(lt[1]) and "asn_struct_ctx" in str(lt[4]):
+                holder = strip_casts(lt[1])[1]
+        if holder is None:
+            continue
+        sizes = [p["id"] for p in f.params if p["name"] == "size"]
+        if not sizes:
+            continue
+        sz = sizes[0]
+        n = 0
+        for b, i, e in f.calls():
+            cal = e.get("callee") or ("slot:%s" % e.get("slot") if e.get("slot") else None)
+            if cal is None:
+                continue
+            if only and not re.search(only, cal):
+                continue
+            args = [a.get("tree") for a in e.get("args", [])]
+            if any(is_var(a, holder) for a in args):
+                continue                      # the context itself goes along: that routine maintains the budget
+            for ai, a in enumerate(args):
+                if not _reads_var(a, sz):
+                    continue
+                n += 1
+                key = "%s(arg%d)#%d" % (cal, ai, n)
+                has_left = any(isinstance(nd, list) and nd and nd[0] == "member" and nd[2] == "left" and is_var(nd[1], holder) for nd in walk(a))
+                if has_left:
+                    r.ok(f, key, "the argument is bounded by %s->left" % holder.split("@")[0], e["line"])
+                else:
+                    r.bad(f, key, "`%s` is given `%s`, the size of the whole input buffer, where the other calls of this function give "
+                                  "min(size, %s->left): the callee may read beyond the end of the enclosing value" % (cal, tree_text(a), holder.split("@")[0]), e["line"])
+    return r
+
+
 def run(ctx):
     prog = ctx.prog("S")
     tab = load_tables("c05")
-    return run_rules(prog, tab) + [r05_3(prog, tab), r05_4(prog, tab), r05_5(prog, tab), r05_6(prog, tab)]
+    return run_rules(prog, tab) + [r05_3(prog, tab), r05_4(prog, tab), r05_5(prog, tab), r05_6(prog, tab), r05_7(prog, tab)]
 
 
 def thorough(ctx):
